@@ -1,4 +1,4 @@
-import Wx.Job.Sim
+import Wx.Job.Inject
 /-! One induction principle for everything the simulator can reach: a property proves six local
     obligations and gets every script, every child behaviour and every race resolution. -/
 namespace Jm
@@ -80,6 +80,7 @@ theorem SimInv.doSend (H : SimInv I SendOk) {x : Sim} (p cs aw) (hs : ∀ c ∈ 
 
 def OpOkFor (SendOk : Prio → Ctl → Prop) : Op → Prop
   | .send p cs _ => ∀ c ∈ cs, SendOk p c
+  | .inject p cs _ => ∀ c ∈ cs, SendOk p c
   | _ => True
 
 theorem SimInv.stepOp (H : SimInv I SendOk) {x : Sim} (o : Op) (ho : OpOkFor SendOk o) (h : I x.st) :
@@ -98,6 +99,9 @@ theorem SimInv.stepOp (H : SimInv I SendOk) {x : Sim} (o : Op) (ho : OpOkFor Sen
   | dropHandles =>
     simp only [Jm.stepOp, List.mem_singleton] at hy; subst hy
     exact H.close _ h
+  | inject p cs aw =>
+    simp only [Jm.stepOp] at hy
+    exact injectAll_ind (fun z => I z.st) p cs aw (fun z s' hz hs' => H.turns z.st hz s' hs') (fun z hz => H.doSend p cs aw ho hz) 50 h y hy
 
 /-- every state of every run of every script -/
 theorem SimInv.runOps (H : SimInv I SendOk) (ops : List Op) (hok : ∀ o ∈ ops, OpOkFor SendOk o) {x : Sim} (h : I x.st) :
